@@ -29,6 +29,7 @@ class Fn:
     decorators: list = field(default_factory=list)
     tag: str | None = None  # unique token identifying this very definition (C17)
     setter: bool = False  # property with a setter (an overloaded definition without implementation for the type checker)
+    overloads: int = 0  # number of '@overload' variants written in front of the implementation (methods only)
 
 
 @dataclass
@@ -137,6 +138,12 @@ def render_params(fn: Fn) -> str:
 
 def render_fn(fn: Fn, indent: str = "") -> str:
     out = []
+    if fn.overloads and fn.role in ("inst", "static", "class"):
+        # the variants repeat the implementation's signature: one declaration for Python, one for the tool
+        deco = {"inst": "", "static": f"{indent}@staticmethod\n", "class": f"{indent}@classmethod\n"}[fn.role]
+        ret_ = f" -> {fn.ret}" if fn.ret is not None else " -> None"
+        for _ in range(fn.overloads):
+            out.append(f"{indent}@overload\n{deco}{indent}def {fn.name}({render_params(fn)}){ret_}: ...\n\n")
     for d in fn.decorators:
         out.append(f"{indent}@{d}\n")
     if fn.role == "static":
@@ -229,6 +236,12 @@ def render_mod(m: Mod) -> str:
     )
     if uses_enum:
         out.append("from enum import Enum\n")
+
+    def _has_overloads(c) -> bool:
+        return any(f.overloads for f in c.methods) or any(isinstance(n, Cls) and _has_overloads(n) for n in c.nested)
+
+    if any(isinstance(d, Cls) and _has_overloads(d) for d in m.decls):
+        out.append("from typing import overload\n")
     for ln in m.imports:
         out.append(ln + "\n")
     out.append("\n\n")
@@ -479,6 +492,7 @@ class GenCfg:
     p_private_mod: float = 0.25
     p_private_decl: float = 0.25
     p_dunder: float = 0.08
+    p_overload: float = 0.1  # share of methods (instance, static, class) written with two '@overload' variants before the implementation
     p_multiword: float = 0.3  # share of snake_case names of several words (functions, parameters, attributes, modules, packages, aliases)
     p_reexport: float = 0.35
     reexport_forms: tuple = ("name-rel-parent", "name-abs-parent", "name-abs-ancestor", "alias-rel-parent", "alias-abs-ancestor", "star-rel-parent", "modalias-rel-parent")
@@ -736,6 +750,8 @@ def _random_cls(rng, names, priv, public_classes, m, cfg, depth) -> Cls:
     for _ in range(rng.randint(0, 4)):
         role = rng.choice(["inst", "inst", "static", "class", "prop"])
         c.methods.append(_random_fn(rng, names, rng.random() < cfg.p_private_decl, role, public_classes, m, cfg))
+        if role in ("inst", "static", "class") and rng.random() < cfg.p_overload:
+            c.methods[-1].overloads = 2
     if cfg.nested_classes and depth < 2 and rng.random() < 0.35:
         for _ in range(rng.choice([1, 1, 2, 3])):
             inner = _random_cls(rng, names, rng.random() < cfg.p_private_decl, public_classes, m, cfg, depth + 1)
